@@ -353,7 +353,7 @@ func runBisyncSim(r *Run, prop string, cfg PipeCfg, st *Stream, maxCrashes int, 
 }
 
 func init() {
-	Register(&PropertyDef{ID: "C14", Strata: []string{"sync", "pipeline", "parallel", "sync-enum", "pipeline-enum", "parallel-enum", "cluster-parallel", "cluster-pipeline", "cluster-sync", "cluster-parallel-b"}, Run: runC14, StepCap: 30000})
+	Register(&PropertyDef{ID: "C14", Strata: []string{"sync", "pipeline", "parallel", "sync-enum", "pipeline-enum", "parallel-enum", "cluster-parallel", "cluster-pipeline", "cluster-sync", "cluster-parallel-b", "modeswitch"}, Run: runC14, StepCap: 30000})
 }
 
 func bisyncCfg(g *simrt.Chooser, mode string) PipeCfg {
@@ -368,6 +368,9 @@ func bisyncCfg(g *simrt.Chooser, mode string) PipeCfg {
 func runC14(r *Run, stratum string) *Violation {
 	if strings.HasPrefix(stratum, "cluster-") {
 		return runC14Cluster(r, stratum)
+	}
+	if stratum == "modeswitch" {
+		return runModeSwitch(r, "C14")
 	}
 	g := r.Gen()
 	mode := splitDash(stratum)[0]
